@@ -32,6 +32,10 @@ func Confusable(r *rand.Rand, c byte) string {
 		return "\u0130"
 	case (c == 's' || c == 'S') && r.IntN(2) == 0:
 		return "\u017f"
+	case c >= '0' && c <= '9' && r.IntN(2) == 0:
+		// decimal digits of other scripts (unicode.IsDigit is true, the ASCII range test is not)
+		base := []rune{0x0660, 0x06F0, 0x0966, 0xFF10, 0x1D7CE}[r.IntN(5)]
+		return string(base + rune(c-'0'))
 	}
 	base := []rune{0x100, 0x100, 0x200, 0x400, 0x600, 0xFF00, 0x1F600}[r.IntN(7)]
 	return string(base + rune(c))
